@@ -31,6 +31,7 @@ type Exec struct {
 	fnSeen      map[string]bool // functions symbolically executed (evidence)
 	stubSeen    map[string]bool
 	harness     string
+	redirect    map[string]*ssa.Function // real function -> harness-provided model
 	globalInit  map[string]func(ex *Exec, st *State, g *ssa.Global) Value
 	stats       struct{ forks, feas, paths int }
 	fallbackBudget time.Duration
